@@ -402,6 +402,10 @@ func (w *Worker) convert(from, to types.Type, v Value) Value {
 				} else if u, ok := x.ConstU(); ok {
 					return FloatV(float64(u))
 				}
+				if w.prog.opaqueIntFloat {
+					// //verif:option opaque-int-float: the float is only stored/passed on (metrics)
+					return &FloatOpaque{ID: w.newID()}
+				}
 				u := w.concretizeAny(x, w.prog.maxConcretize, "integer converted to float")
 				if fsigned {
 					sh := uint(64 - fw)
